@@ -34,7 +34,7 @@ FORBIDDEN = re.compile(r"\bsorry\b|\badmit\b|^\s*axiom\s|native_decide|bv_decide
 TRUSTED_BASE = [
     "Lean 4.33.0 kernel (thorough tier: re-checked with leanchecker)",
     "axioms allowed: propext, Classical.choice, Quot.sound (audited with #print axioms on every run); no sorry/native_decide/bv_decide/own axioms",
-    "hand-written Lean models tied to /repo only by harness/extract.py (constants, literals, source-shape facts) and by the differential correspondence run of this check",
+    "hand-written Lean models tied to /repo by harness/extract.py (constants, literals, source-shape facts), by the differential correspondence run of this check and - for the functions listed as translate:<fn> obligations - by harness/translate.py (the Python function re-translated to Lean on every run and proved equal to the model)",
     "harness simulators (fake transport, virtual-clock loop, memory-BIO TLS peer, temp trees, sqlite shim) and canonicalisers, ordinary Python",
     "CPython 3.12.1 stdlib (urllib.parse, asyncio, ssl, sqlite3, pathlib), OpenSSL/pyOpenSSL, cryptography: exercised, not modelled beyond the contracts in DESIGN.md §3",
 ]
